@@ -16,5 +16,5 @@ func TestWhiteBox(t *testing.T) {
 }
 
 func TestBlackBox(t *testing.T) {
-	hk.RunSub(t, hk.Sub[BPlan]{Name: "bb/qcontroller-backoff", Quick: 800, Thorough: 8000, Gen: GenB, Run: RunB, Journal: true})
+	hk.RunSub(t, hk.Sub[BPlan]{Name: "bb/qcontroller-backoff", Quick: 2500, Thorough: 12000, Gen: GenB, Run: RunB, Journal: true})
 }
